@@ -89,15 +89,23 @@ FNTab == [i \in 1..Len(Corpus) |->
 (***************************************************************************)
 (* Processes                                                               *)
 (***************************************************************************)
-Proc(n, env, provs) ==
+\* Ownership layer: inst names the copy of the syntax tree a process body lives in.  The parsed program is
+\* instance <<0>>; CALL and DUP make fresh copies (CopyForm), CUT hands a sub-tree of the same copy to the
+\* child, synthetic forms (forwards made by SPLIT / DROP / DUP / GC, axioms a positive forward turns into) are
+\* fresh objects of their own.  A tree node is the pair <<inst, n>>; ni counts the copies a process has made.
+Proc(n, env, provs, inst) ==
     [n |-> n, syn |-> NoSyn, env |-> env, provs |-> provs, nc |-> 0, ns |-> 0,
-     st |-> "run", on |-> NIL, how |-> ""]
-SynProc(syn, env, provs) ==
+     st |-> "run", on |-> NIL, how |-> "", inst |-> inst, ni |-> 0]
+SynProc(syn, env, provs, inst) ==
     [n |-> 0, syn |-> syn, env |-> env, provs |-> provs, nc |-> 0, ns |-> 0,
-     st |-> "run", on |-> NIL, how |-> ""]
+     st |-> "run", on |-> NIL, how |-> "", inst |-> inst, ni |-> 0]
 
-SynFwd(c, pol, drop, provs) ==
-    SynProc([k |-> "fwd", to |-> SelfNm, from |-> Nm("$1", pol), drop |-> drop], ("$1" :> c), provs)
+\* the instance a fresh object made for / by process q lives in
+OwnInst(q) == q \o <<0>>
+CopyInst(q, k) == q \o <<-k>>
+
+SynFwd(q, c, pol, drop, provs) ==
+    SynProc([k |-> "fwd", to |-> SelfNm, from |-> Nm("$1", pol), drop |-> drop], ("$1" :> c), provs, OwnInst(q))
 
 Node(P) == IF P.n = 0 THEN P.syn ELSE Nodes[P.n]
 
@@ -147,8 +155,9 @@ HeadF(P) ==
         fn    |-> IF nd.k = "call" THEN nd.fn ELSE "",
         drop  |-> IF nd.k = "fwd" THEN nd.drop ELSE FALSE]
 
-EvAt(p, P)       == [e |-> "at", p |-> p, provs |-> P.provs] @@ HeadF(P)
-EvSpawn(p, c, P) == [e |-> "spawn", p |-> p, child |-> c, provs |-> P.provs] @@ HeadF(P)
+\* inst / n are not logged: the trace specification uses them to name the tree nodes the event's "tree" field lists
+EvAt(p, P)       == [e |-> "at", p |-> p, provs |-> P.provs, inst |-> P.inst, n |-> P.n] @@ HeadF(P)
+EvSpawn(p, c, P) == [e |-> "spawn", p |-> p, child |-> c, provs |-> P.provs, inst |-> P.inst, n |-> P.n] @@ HeadF(P)
 EvMsg(e, p, c, m) == [e |-> e, p |-> p, c |-> c, ctl |-> FALSE, rule |-> m.rule, label |-> m.label,
                       ch1 |-> m.ch1, ch2 |-> m.ch2, provs |-> m.provs]
 EvCall(p)        == [e |-> "call", p |-> p]
@@ -186,10 +195,10 @@ DupDo(p, P, base) ==
         CopyEnv(j) == [id \in DOMAIN P.env |->
                          LET idx == {i \in 1..m : fr[i].id = id}
                          IN IF idx # {} THEN Fresh(CHOOSE i \in idx : TRUE, j) ELSE P.env[id]]
-        Copy(j) == [P EXCEPT !.env = CopyEnv(j), !.provs = <<P.provs[j]>>, !.nc = 0, !.ns = 0]
-        Fwd(i)  == SynFwd(fr[i].c, fr[i].pol, FALSE, [j \in 1..k |-> Fresh(i, j)])
         Cpid(j) == Append(p, P.ns + j)
         Fpid(i) == Append(p, P.ns + k + i)
+        Copy(j) == [P EXCEPT !.env = CopyEnv(j), !.provs = <<P.provs[j]>>, !.nc = 0, !.ns = 0, !.inst = OwnInst(Cpid(j)), !.ni = 0]
+        Fwd(i)  == SynFwd(Fpid(i), fr[i].c, fr[i].pol, FALSE, [j \in 1..k |-> Fresh(i, j)])
         newprocs == [q \in {Cpid(j) : j \in 1..k} \cup {Fpid(i) : i \in 1..m} |->
                        IF \E j \in 1..k : q = Cpid(j)
                        THEN Copy(CHOOSE j \in 1..k : q = Cpid(j))
@@ -249,7 +258,7 @@ GcCascade(q, Q, c, B) ==
         m  == Len(fr)
         Ch(i)  == Append(q, Q.nc + i)
         Pid(i) == Append(q, Q.ns + i)
-        Kid(i) == SynFwd(fr[i].c, fr[i].pol, TRUE, <<Ch(i)>>)
+        Kid(i) == SynFwd(Pid(i), fr[i].c, fr[i].pol, TRUE, <<Ch(i)>>)
         kids   == [x \in {Pid(i) : i \in 1..m} |-> Kid(CHOOSE i \in 1..m : x = Pid(i))]
         newchans == [x \in {Ch(i) : i \in 1..m} |-> NewChan]
         mine == <<EvMsg("recv", q, c, B.m)>> \o [i \in 1..m |-> EvSpawn(q, Pid(i), Kid(i))] \o <<EvEnd(q, "terminate")>>
@@ -366,7 +375,7 @@ StepNewForm(p, P, nd) ==
     IF NeedsDup(P) THEN DupDo(p, P, P.nc)
     ELSE LET c   == Append(p, P.nc + 1)
              kid == Append(p, P.ns + 1)
-             K   == Proc(nd.body, P.env, <<c>>)
+             K   == Proc(nd.body, P.env, <<c>>, P.inst)
              P2  == [Next1(P, nd.next, (nd.x.id :> c) @@ P.env, P.provs) EXCEPT !.nc = @ + 1, !.ns = @ + 1]
          IN Set((kid :> K) @@ [procs EXCEPT ![p] = P2], (c :> NewChan) @@ chans, out,
                 Continue(p, P2, <<EvSpawn(p, kid, K)>>) @@ (kid :> <<EvAt(kid, K)>>))
@@ -388,7 +397,7 @@ StepCallForm(p, P, nd) ==
                   ids == {F.params[i].id : i \in 1..n}
                   env2 == [id \in ids |-> Res(P, nd.args[(CHOOSE i \in 1..n : F.params[i].id = id) + off])]
                   env3 == IF F.expl # "" /\ off = 1 THEN (F.expl :> Res(P, nd.args[1])) @@ env2 ELSE env2
-                  P2 == Next1(P, F.body, env3, P.provs)
+                  P2 == [Next1(P, F.body, env3, P.provs) EXCEPT !.inst = CopyInst(p, P.ni + 1), !.ni = @ + 1]
               IN Set([procs EXCEPT ![p] = P2], chans, out, Continue(p, P2, <<EvCall(p)>>))
 
 StepPrintForm(p, P, nd) ==
@@ -404,7 +413,7 @@ StepSplitForm(p, P, nd) ==
     ELSE LET c1 == Append(p, P.nc + 1)
              c2 == Append(p, P.nc + 2)
              kid == Append(p, P.ns + 1)
-             K == SynFwd(from, PolOf(nd.from), FALSE, <<c1, c2>>)
+             K == SynFwd(kid, from, PolOf(nd.from), FALSE, <<c1, c2>>)
              P2 == [Next1(P, nd.next, (nd.a.id :> c1) @@ (nd.b.id :> c2) @@ P.env, P.provs) EXCEPT !.nc = @ + 2, !.ns = @ + 1]
          IN Set((kid :> K) @@ [procs EXCEPT ![p] = P2], (c1 :> NewChan) @@ (c2 :> NewChan) @@ chans, out,
                 Continue(p, P2, <<EvSpawn(p, kid, K)>>) @@ (kid :> <<EvAt(kid, K)>>))
@@ -416,13 +425,14 @@ StepDropForm(p, P, nd) ==
     ELSE IF NeedsDup(P) THEN DupDo(p, P, P.nc)
     ELSE LET nc == Append(p, P.nc + 1)
              kid == Append(p, P.ns + 1)
-             K == SynFwd(c, PolOf(nd.c), TRUE, <<nc>>)
+             K == SynFwd(kid, c, PolOf(nd.c), TRUE, <<nc>>)
              P2 == [Next1(P, nd.next, P.env, P.provs) EXCEPT !.nc = @ + 1, !.ns = @ + 1]
          IN Set((kid :> K) @@ [procs EXCEPT ![p] = P2], (nc :> NewChan) @@ chans, out,
                 Continue(p, P2, <<EvSpawn(p, kid, K)>>) @@ (kid :> <<EvAt(kid, K)>>))
 
-\* a positive forward that received a message becomes the corresponding axiom on self
-Become(P, m) ==
+\* a positive forward that received a message becomes the corresponding axiom on self (a fresh object made by
+\* the process, like the copy made by a call)
+Become0(P, m) ==
     CASE m.rule = "SND" -> [P EXCEPT !.n = 0,
                                !.syn = [k |-> "send", to |-> SelfNm, pay |-> Nm("$1", m.pol1), cont |-> Nm("$2", m.pol2)],
                                !.env = ("$1" :> m.ch1) @@ ("$2" :> m.ch2)]
@@ -436,6 +446,8 @@ Become(P, m) ==
       [] m.rule = "FWD" -> [P EXCEPT !.n = 0,
                                !.syn = [k |-> "fwd", to |-> SelfNm, from |-> Nm("$1", "nil"), drop |-> FALSE],
                                !.env = ("$1" :> m.provs[1]), !.provs = m.provs]
+
+Become(p, P, m) == [Become0(P, m) EXCEPT !.inst = CopyInst(p, P.ni + 1), !.ni = @ + 1]
 
 \* ForwardForm.Transition: no DUP check, no cancellation poll
 StepFwdForm(p, P, nd) ==
@@ -451,13 +463,13 @@ StepFwdForm(p, P, nd) ==
          /\ LET B == Taken(from) IN
             IF ~nd.drop
             THEN IF B.m.rule \notin {"SND", "CLS", "SEL", "CST", "FWD"} THEN Fail(p, "positive forward: unexpected message")
-                 ELSE ContinueWith(p, Become(P, B.m), from, B)
+                 ELSE ContinueWith(p, Become(p, P, B.m), from, B)
             ELSE \* droppable: swallow the message, drop its payload channels
                  LET pay == SelectSeq(<<[c |-> B.m.ch1, pol |-> B.m.pol1], [c |-> B.m.ch2, pol |-> B.m.pol2]>>, LAMBDA x : x.c # NIL)
                      m == Len(pay)
                      Ch(i)  == Append(p, P.nc + i)
                      Pid(i) == Append(p, P.ns + i)
-                     Kid(i) == SynFwd(pay[i].c, pay[i].pol, TRUE, <<Ch(i)>>)
+                     Kid(i) == SynFwd(Pid(i), pay[i].c, pay[i].pol, TRUE, <<Ch(i)>>)
                      kids == [x \in {Pid(i) : i \in 1..m} |-> Kid(CHOOSE i \in 1..m : x = Pid(i))]
                      newchans == [x \in {Ch(i) : i \in 1..m} |-> NewChan]
                      mine == <<EvMsg("recv", p, from, B.m)>> \o [i \in 1..m |-> EvSpawn(p, Pid(i), Kid(i))] \o <<EvEnd(p, "terminate")>>
@@ -501,7 +513,7 @@ TopEnv ==
             j == CHOOSE j \in 1..Len(Prog.procs[i].provs) : Prog.procs[i].provs[j] = id
         IN TopChans(i)[j]]
 
-InitProcs == [p \in {<<i>> : i \in 1..Len(Prog.procs)} |-> Proc(Prog.procs[p[1]].body, TopEnv, TopChans(p[1]))]
+InitProcs == [p \in {<<i>> : i \in 1..Len(Prog.procs)} |-> Proc(Prog.procs[p[1]].body, TopEnv, TopChans(p[1]), <<0>>)]
 InitChans == [c \in UNION {{TopChans(i)[j] : j \in 1..Len(Prog.procs[i].provs)} : i \in 1..Len(Prog.procs)} |-> NewChan]
 
 Init ==
@@ -584,6 +596,19 @@ BagOf(s) == [x \in {s[i] : i \in 1..Len(s)} |-> Cardinality({i \in 1..Len(s) : s
 Expect == Corpus[pi].expect
 ExpectedOutcome ==
     (err = <<>> /\ Quiescent /\ Expect # <<"?">>) => BagOf(out) = BagOf(Expect)
+
+\* C13 (ownership discipline): the sub-trees owned by two live processes never overlap - a process body is
+\* mutated in place by substitution, so a shared node would be an unsynchronised concurrent access.
+RECURSIVE SubSize(_, _)
+SubSize(T, n) ==
+    LET nd == T[n] IN
+    CASE nd.k \in {"recv", "split", "wait", "shift", "drop", "print"} -> 1 + SubSize(T, nd.next)
+      [] nd.k = "case" -> LET Add(a, b) == a + SubSize(T, b.next) IN FoldLeft(Add, 1, nd.br)
+      [] nd.k = "new"  -> 1 + SubSize(T, nd.body) + SubSize(T, nd.next)
+      [] OTHER -> 1
+SizeTab == [i \in 1..Len(Corpus) |-> [n \in 1..Len(Corpus[i].prog.nodes) |-> SubSize(Corpus[i].prog.nodes, n)]]
+TreeOf(P) == IF P.n = 0 THEN {<<P.inst, 0>>} ELSE {<<P.inst, m>> : m \in P.n..(P.n + SizeTab[pi][P.n] - 1)}
+NoSharedTree == \A p, q \in DOMAIN procs : p # q => TreeOf(procs[p]) \cap TreeOf(procs[q]) = {}
 
 StateBound == Cardinality(DOMAIN chans) <= MaxChans
 
